@@ -249,6 +249,15 @@ pub trait Kind<'s>: Input<'s, Token = Self::Tok, Span = Self::Spn> + Sized + 's 
     fn p_not<R: Er<'s, Self>>(p: BP<'s, Self, R>) -> BP<'s, Self, R>;
     fn p_lazy<R: Er<'s, Self>>(p: BP<'s, Self, R>) -> BP<'s, Self, R>;
     fn p_nested<R: Er<'s, Self>>(a: BP<'s, Self, R>, open: char, close: char, others: &[(char, char)], tag: u32) -> BP<'s, Self, R>;
+    /// the kind is a BorrowInput (any_ref / select_ref! exist)
+    const BORROW: bool = false;
+    /// any_ref() / select_ref!() where the kind is a BorrowInput, else the by-value primitives
+    fn p_any_ref<R: Er<'s, Self>>() -> BP<'s, Self, R> {
+        Self::p_any::<R>()
+    }
+    fn p_select_ref<R: Er<'s, Self>>(set: &str, flavour: SelFlavour) -> BP<'s, Self, R> {
+        Self::p_select::<R>(set, flavour)
+    }
     /// `a.nested_in(group)`: only the token-tree kind has group tokens (C16)
     fn p_nested_in<R: Er<'s, Self>>(_a: BP<'s, Self, R>) -> BP<'s, Self, R> {
         unreachable!("nested_in needs the token-tree input kind")
@@ -279,6 +288,30 @@ pub mod vprims {
     pub fn select<'s, I: Kind<'s> + ValueInput<'s>, R: Er<'s, I>>(s: &str, flavour: SelFlavour) -> BP<'s, I, R> {
         let set = s.to_string();
         chumsky::primitive::select::<_, I, Val, Ex<R>>(move |t: I::Tok, e| {
+            let c = t.to_char();
+            if !set.contains(c) {
+                return None;
+            }
+            Some(match flavour {
+                SelFlavour::Plain => Val::Tok(c),
+                SelFlavour::State => {
+                    let st = e.state();
+                    Val::St(st.n, st.h, Box::new(Val::Tok(c)))
+                }
+                SelFlavour::Span => {
+                    let (s, e2) = e.span().se();
+                    Val::pair(Val::Span(s, e2), Val::Tok(c))
+                }
+            })
+        })
+        .boxed()
+    }
+    pub fn any_ref<'s, I: Kind<'s> + chumsky::input::BorrowInput<'s>, R: Er<'s, I>>() -> BP<'s, I, R> {
+        chumsky::primitive::any_ref::<I, Ex<R>>().map(|t: &I::Tok| Val::Tok(t.to_char())).boxed()
+    }
+    pub fn select_ref<'s, I: Kind<'s> + chumsky::input::BorrowInput<'s>, R: Er<'s, I>>(s: &str, flavour: SelFlavour) -> BP<'s, I, R> {
+        let set = s.to_string();
+        chumsky::primitive::select_ref::<_, I, Val, Ex<R>>(move |t: &I::Tok, e| {
             let c = t.to_char();
             if !set.contains(c) {
                 return None;
@@ -376,6 +409,18 @@ macro_rules! value_kind_prims {
         }
         fn p_nested<R: Er<'s, Self>>(a: BP<'s, Self, R>, open: char, close: char, others: &[(char, char)], tag: u32) -> BP<'s, Self, R> {
             vprims::nested::<Self, R>(a, open, close, others, tag)
+        }
+    };
+}
+/// by-reference primitives for kinds that are BorrowInputs
+macro_rules! borrow_kind_prims {
+    () => {
+        const BORROW: bool = true;
+        fn p_any_ref<R: Er<'s, Self>>() -> BP<'s, Self, R> {
+            vprims::any_ref::<Self, R>()
+        }
+        fn p_select_ref<R: Er<'s, Self>>(set: &str, flavour: SelFlavour) -> BP<'s, Self, R> {
+            vprims::select_ref::<Self, R>(set, flavour)
         }
     };
 }
@@ -548,6 +593,7 @@ impl<'s> Kind<'s> for &'s str {
 }
 impl<'s, T: Tk> Kind<'s> for &'s [T] {
     value_kind_prims!();
+    borrow_kind_prims!();
     type Tok = T;
     type Spn = SimpleSpan;
     const HAS_SLICE: bool = true;
@@ -627,6 +673,7 @@ impl<'s> Kind<'s> for SpSlice<'s> {
     type Spn = SimpleSpan;
     no_slices!();
     value_kind_prims!();
+    borrow_kind_prims!();
 }
 impl<'s> Kind<'s> for SpStream {
     type Tok = char;
@@ -647,6 +694,7 @@ impl<'s> Kind<'s> for SpIter {
 
 impl<'s, T: Tk, const N: usize> Kind<'s> for &'s [T; N] {
     value_kind_prims!();
+    borrow_kind_prims!();
     type Tok = T;
     type Spn = SimpleSpan;
     const HAS_SLICE: bool = true;
@@ -750,6 +798,7 @@ pub fn map_span_slice<'s>(toks: &'s [char]) -> MapSpanSlice<'s> {
 }
 impl<'s> Kind<'s> for MapSpanSlice<'s> {
     value_kind_prims!();
+    borrow_kind_prims!();
     type Tok = char;
     type Spn = Shifted;
     const HAS_SLICE: bool = true;
@@ -809,6 +858,7 @@ impl<'s> Kind<'s> for TTIn<'s> {
     type Spn = SimpleSpan;
     no_slices!();
     value_kind_prims!();
+    borrow_kind_prims!();
     fn p_nested_in<R: Er<'s, Self>>(a: BP<'s, Self, R>) -> BP<'s, Self, R> {
         let group = chumsky::select_ref! { TT::Group(kids, eoi) => tt_input(kids.as_slice(), *eoi) };
         a.nested_in(group).boxed()
@@ -886,13 +936,19 @@ pub struct Bld<'s, I: Kind<'s>, R: Er<'s, I>> {
     pub obs_state: bool,
     /// C07: try_map / validate / select closures also record the span they are given
     pub cap_spans: bool,
+    /// build any() / select!() as any_ref() / select_ref!() where the input kind is a BorrowInput
+    pub borrow_prims: bool,
+    /// C11: structurally equal (closed) memoized sub-grammars are built ONCE and the same parser value is cloned
+    /// into every place (clones of a Boxed share the memoized parser, hence its memo key)
+    pub share_memo: bool,
+    memo_cache: HashMap<G, BP<'s, I, R>>,
     recs: HashMap<u8, BP<'s, I, R>>,
 }
 
 
 impl<'s, I: Kind<'s>, R: Er<'s, I>> Bld<'s, I, R> {
     pub fn new(g: &G, observed: bool) -> Self {
-        Bld { ids: number(g), observed, rec_style: RecStyle::Func, explicit: false, obs_state: false, cap_spans: false, recs: HashMap::new() }
+        Bld { ids: number(g), observed, rec_style: RecStyle::Func, explicit: false, obs_state: false, cap_spans: false, borrow_prims: false, share_memo: false, memo_cache: HashMap::new(), recs: HashMap::new() }
     }
 
     pub fn build(&mut self, g: &G) -> BP<'s, I, R> {
@@ -1093,9 +1149,11 @@ impl<'s, I: Kind<'s>, R: Er<'s, I>> Bld<'s, I, R> {
             Just(s) => just::<_, I, Ex<R>>(toks!(s, I))
                 .map(|v: Vec<I::Tok>| Val::Str(v.iter().map(|t| t.to_char()).collect()))
                 .boxed(),
+            Any if self.borrow_prims => I::p_any_ref::<R>(),
             Any => I::p_any::<R>(),
             OneOf(s) => I::p_one_of::<R>(s),
             NoneOf(s) => I::p_none_of::<R>(s),
+            Select(s) if self.borrow_prims => I::p_select_ref::<R>(s, if self.obs_state { SelFlavour::State } else if self.cap_spans { SelFlavour::Span } else { SelFlavour::Plain }),
             Select(s) => I::p_select::<R>(s, if self.obs_state { SelFlavour::State } else if self.cap_spans { SelFlavour::Span } else { SelFlavour::Plain }),
             End => end::<I, Ex<R>>().map(|()| Val::Unit).boxed(),
             Empty => empty::<I, Ex<R>>().map(|()| Val::Unit).boxed(),
@@ -1382,6 +1440,14 @@ impl<'s, I: Kind<'s>, R: Er<'s, I>> Bld<'s, I, R> {
                         })
                         .boxed()
                 }
+            }
+            Memo(a) if self.share_memo && !self.observed && !a.any_node(&|n| matches!(n, RecRef(_) | CxObs(_) | JustCfg(_) | MapCtx(..))) => {
+                if let Some(p) = self.memo_cache.get(&**a) {
+                    return p.clone();
+                }
+                let p = self.build(a).memoized().boxed();
+                self.memo_cache.insert((**a).clone(), p.clone());
+                p
             }
             Memo(a) => self.build(a).memoized().boxed(),
             Wrapped(a, w) => {
